@@ -35,7 +35,15 @@ pub fn parse_indexed_resp(buf: &mut BytesMut) -> Result<IndexedResp, ParseError>
     Ok(IndexedResp::new(resp, data))
 }
 
+// Arrays nested deeper than this are rejected: the parser, `advance` and `Drop` all recurse
+// once per nesting level, so the depth must not be chosen by the peer.
+pub const MAX_NESTING: usize = 128;
+
 pub fn parse_resp(buf: &[u8]) -> Result<(RespIndex, usize), ParseError> {
+    parse_resp_nested(buf, 0)
+}
+
+fn parse_resp_nested(buf: &[u8], depth: usize) -> Result<(RespIndex, usize), ParseError> {
     if buf.is_empty() {
         return Err(ParseError::NotEnoughData);
     }
@@ -65,7 +73,10 @@ pub fn parse_resp(buf: &[u8]) -> Result<(RespIndex, usize), ParseError> {
             Ok((RespIndex::Error(v), 1 + consumed))
         }
         b'*' => {
-            let (mut v, consumed) = parse_array(next_buf)?;
+            if depth >= MAX_NESTING {
+                return Err(ParseError::InvalidProtocol);
+            }
+            let (mut v, consumed) = parse_array_nested(next_buf, depth + 1)?;
             v.advance(1);
             Ok((RespIndex::Arr(v), 1 + consumed))
         }
@@ -76,7 +87,12 @@ pub fn parse_resp(buf: &[u8]) -> Result<(RespIndex, usize), ParseError> {
     }
 }
 
+#[cfg(test)]
 fn parse_array(buf: &[u8]) -> Result<(ArrayIndex, usize), ParseError> {
+    parse_array_nested(buf, 1)
+}
+
+fn parse_array_nested(buf: &[u8], depth: usize) -> Result<(ArrayIndex, usize), ParseError> {
     let (len, mut consumed) = parse_len(buf)?;
     if len < 0 {
         return Ok((ArrayIndex::Nil, consumed));
@@ -90,7 +106,7 @@ fn parse_array(buf: &[u8]) -> Result<(ArrayIndex, usize), ParseError> {
 
     for _ in 0..array_size {
         let next_buf = buf.get(consumed..).ok_or(ParseError::InvalidProtocol)?;
-        let (mut v, element_consumed) = parse_resp(next_buf)?;
+        let (mut v, element_consumed) = parse_resp_nested(next_buf, depth)?;
         v.advance(consumed);
         consumed += element_consumed;
         array.push(v);
